@@ -109,9 +109,16 @@ fn main() {
             let n_small = if thorough { 6000 } else { 700 };
             let n_big = if thorough { 3000 } else { 400 };
             let subrules = ["grammar_rules", "grammar_rule", "expression", "term", "string", "insensitive_string", "range", "character", "peek_slice", "identifier", "number", "integer", "_push", "inner_str", "escape", "COMMENT", "line_doc", "tag_id", "repeat_min_max"];
+            // characters that an editor or a "friendly" wrapper might treat as ignorable at the edges of a file:
+            // the meta-grammar does not, so all parsers must reject them alike (deterministic cases first)
+            let edges = ["\u{feff}", "\u{a0}", "\u{200b}", "\u{2028}", "\u{0}", "\r", "\u{c}", "\u{85}", "\u{feff}\u{feff}"];
+            for e in &edges { for t in ["a = { \"b\" }", "", "//! d\na = _{ b }\nb = { \"c\" }"] {
+                for text in [format!("{}{}", e, t), format!("{}{}", t, e), format!("{}{}{}", e, t, e)] {
+                    let l = format!("M grammar_rules {}", hexs(&text)); let (i2, v) = eval_line(&l, &cx, &mut stats); out.push(l, i2, v); } } }
             for i in 0..n_small {
                 let base = rng.pick(&snippets).clone();
                 let text = if i % 3 == 0 { base } else { mutate(&mut rng, &base) };
+                let text = if rng.chance(1, 10) { format!("{}{}", rng.pick(&edges), text) } else if rng.chance(1, 20) { format!("{}{}", text, rng.pick(&edges)) } else { text };
                 if text.len() > 300 { continue; }
                 let rule = if i % 2 == 0 { "grammar_rules" } else { *rng.pick(&subrules) };
                 // sub-rules get a fragment: take a random suffix so they start at interesting places
@@ -119,7 +126,7 @@ fn main() {
                 let l = format!("M {} {}", rule, hexs(&frag));
                 let (i2, v) = eval_line(&l, &cx, &mut stats); out.push(l, i2, v);
             }
-            for _ in 0..n_big { let base = rng.pick(&seeds).clone(); let text = if rng.chance(1, 4) { base } else { mutate(&mut rng, &base) }; let l = format!("M0 grammar_rules {}", hexs(&text)); let (i2, v) = eval_line(&l, &cx, &mut stats); out.push(l, i2, v); }
+            for _ in 0..n_big { let base = rng.pick(&seeds).clone(); let text = if rng.chance(1, 4) { base } else { mutate(&mut rng, &base) }; let text = if rng.chance(1, 10) { format!("{}{}", rng.pick(&edges), text) } else { text }; let l = format!("M0 grammar_rules {}", hexs(&text)); let (i2, v) = eval_line(&l, &cx, &mut stats); out.push(l, i2, v); }
             let samples: Vec<String> = out.ops.iter().step_by((out.ops.len() / 5).max(1)).take(5).map(|s| if s.len() > 200 { format!("{}…", &s[..200]) } else { s.clone() }).collect();
             let stats_s = format!("{{\"evaluations\":{},\"distinct_nontrivial\":{},\"texts_with_reference_denotation\":{},\"whole_file_texts\":{},\"regeneration_equal\":{},\"observed\":{:?},\"samples\":{:?}}}", out.ops.len(), stats.get("res_ok").cloned().unwrap_or(0), n_small, n_big, same, stats, samples);
             out.write(&dir, &stats_s);
